@@ -50,11 +50,10 @@ func c14Diff(dec config.DecoderType) {
 		// and the preloaded one ends with ErrNoAmmo (see HarnessC14KnownNothingChosen*)
 		vAssume(len(sel) != 0)
 	}
-	if vKnown("C14-limit-counts-filtered") {
-		// open finding: the streaming decoder counts entries that chosencases filters out against
-		// limit (see HarnessC14KnownLimitCountsFiltered)
-		vAssume(!(len(sel) < E && limit != 0))
-	}
+	// open finding: the streaming decoder counts entries that chosencases filters out against
+	// limit (see HarnessC14KnownLimitCountsFiltered). In that region only the streaming side is
+	// excused; the preloaded provider is still compared with the reference.
+	knownStream := vKnown("C14-limit-counts-filtered") && len(sel) < E && limit != 0
 	maxItems := 1000
 	if exp < 0 {
 		maxItems = 2*len(sel) + 1
@@ -65,11 +64,13 @@ func c14Diff(dec config.DecoderType) {
 	if exp < 0 {
 		want = maxItems
 	}
-	vCheck("P4.stream.count.limit.counts.delivered", len(s.tags) == want)
 	vCheck("P4.preload.count.limit.counts.delivered", len(p.tags) == want)
-	vCheck("P1.same.length", len(s.tags) == len(p.tags))
-	for i := range s.tags {
-		vCheck("P3.stream.selected.in.file.order", s.tags[i] == sel[i%len(sel)])
+	if !knownStream {
+		vCheck("P4.stream.count.limit.counts.delivered", len(s.tags) == want)
+		vCheck("P1.same.length", len(s.tags) == len(p.tags))
+		for i := range s.tags {
+			vCheck("P3.stream.selected.in.file.order", s.tags[i] == sel[i%len(sel)])
+		}
 	}
 	for i := range p.tags {
 		vCheck("P3.preload.selected.in.file.order", p.tags[i] == sel[i%len(sel)])
